@@ -85,3 +85,10 @@ claim("C07", "codec extraction (writer/reader tables), affine normal forms with 
       "and seal_blob advance the blob start by blob start + part offset + part size, reset or continue the part offset, emit parts at the entry "
       "state, record entry offsets as part offset + bytes so far, and start a new block exactly when the entry end exceeds the block size. "
       "Non-overlap over all batch sequences is not decided.", "DESIGN.md §4 C07")
+claim("C08", "sibling agreement of encoder/decoder pairs (endianness, width, order), enum arm tables, error-propagation flow, wrapper delegation rule, dominance and affine forms",
+      "Decides for all 14 numeric Code impls, bool, Vec<u8>, String and Bytes that encode and decode use the same endianness, width, prefix "
+      "type and order with exact-length primitives and typed error conversion; that the serializer and deserializer use the same codec family "
+      "per compression tag; that no Result in the serializer is dropped and no drop-finishing adaptor is used; that the length-tracking writer "
+      "forwards each io::Write method like-for-like and counts on success only; that Buffer::push records an entry only over the Ok edge of "
+      "serialize and within max_entry_size (push_slice tests sizes before copying); that the header carries the serializer's lengths, the payload "
+      "checksum and the caller's metadata; WriteZero -> BufferSizeLimit. Codec correctness and value equality are not decided.", "DESIGN.md §4 C08")
